@@ -19,7 +19,8 @@ Mirrors (same iteration order, same tie-breaking as the Python):
 * `buildAdj` – the insertion-ordered symmetric adjacency (`kcore`, `louvain`, and the repaired
   `articulation_points` / `bridges` all build it with the same double loop).
 * `lowlink` – the low-link DFS of `articulation_points` and `bridges` (one traversal, both outputs).
-* `kcoreMirror` – bucket peeling (`set.pop()` modelled as "take the first element").
+* `kcoreRun` – bucket peeling, parametrised by an oracle for `set.pop()` and set iteration order
+  (`kcoreMirror` = the first-element oracle the driver runs).
 * `prStep`, `pagerank` – written once over `Ops α`; instantiated at `Rat` (theorems) and at `Float`
   (bit-level R_trace; `pySumF` is CPython 3.12's compensated `sum`).
 * `louvain` – local-moving loop with the `node_to_comm` / `comm_nodes` / `comm_degree` bookkeeping
@@ -212,9 +213,22 @@ structure KSt where
   core    : List (Nat × Nat)   -- `core_number`, insertion order
   iters   : Nat
 
-/-- `for w in adj[v]: if w not in core_number: …` -/
-def kRelax (sadj : Nat → List Nat) (k v : Nat) (st : KSt) : KSt :=
-  (sadj v).foldl (fun st w =>
+/-- What CPython leaves unspecified in `kcore_decomposition`: which element `set.pop()` returns and
+in which order `for w in adj[v]` walks the set, at the `i`-th pop. -/
+structure KOracle where
+  pick  : Nat → List Nat → Nat
+  order : Nat → List Nat → List Nat
+
+/-- an oracle is admissible when it pops a member and iterates a permutation -/
+def KOracle.Valid (R : KOracle) : Prop :=
+  (∀ i l, l ≠ [] → R.pick i l ∈ l) ∧ (∀ i l, (R.order i l).Perm l)
+
+/-- the oracle the driver runs: first element, list order -/
+def headOracle : KOracle := ⟨fun _ l => l.headD 0, fun _ l => l⟩
+
+/-- `for w in adj[v]: if w not in core_number: …` (`ns` = the order in which the set is walked) -/
+def kRelax (k : Nat) (ns : List Nat) (st : KSt) : KSt :=
+  ns.foldl (fun st w =>
     if hasKey st.core w then st else
     let old := aget st.degree w 0
     if old > k then
@@ -222,26 +236,30 @@ def kRelax (sadj : Nat → List Nat) (k v : Nat) (st : KSt) : KSt :=
                 degree := aset st.degree w (old - 1) }
     else st) st
 
-/-- `while buckets[k]: v = buckets[k].pop(); …` (`pop` takes the first element) -/
-def kLevel (sadj : Nat → List Nat) (k : Nat) : Nat → KSt → KSt
+/-- `while buckets[k]: v = buckets[k].pop(); core_number[v] = k; …` -/
+def kLevel (R : KOracle) (sadj : Nat → List Nat) (k : Nat) : Nat → KSt → KSt
   | 0, st => st
   | f+1, st =>
-    match st.buckets.getD k [] with
-    | [] => st
-    | v :: _ =>
-      let st := { st with iters := st.iters + 1, buckets := modAt (·.erase v) st.buckets k,
-                          core := aset st.core v k }
-      kLevel sadj k f (kRelax sadj k v st)
+    let b := st.buckets.getD k []
+    if b.isEmpty then st else
+    let v := R.pick st.iters b
+    let st' := { st with iters := st.iters + 1, buckets := modAt (·.erase v) st.buckets k,
+                         core := aset st.core v k }
+    kLevel R sadj k f (kRelax k (R.order st.iters (sadj v)) st')
 
-/-- `kcore_decomposition`: the dict `core_number` in insertion order -/
-def kcoreMirror (G : Graph) : List (Nat × Nat) :=
-  if G.nodes.isEmpty then [] else
+/-- the state before the `for k in range(max_degree + 1)` loop -/
+def kInit (G : Graph) : KSt :=
   let deg := G.nodes.map fun v => (v, (G.sadj v).length)
   let maxd := deg.foldl (fun m p => max m p.2) 0
-  let buckets := (List.range (maxd + 1)).map fun d => G.nodes.filter fun v => aget deg v 0 == d
-  let st := (List.range (maxd + 1)).foldl (fun st k => kLevel G.sadj k (G.nodes.length + 1) st)
-    ⟨deg, buckets, [], 0⟩
-  st.core
+  ⟨deg, (List.range (maxd + 1)).map fun d => G.nodes.filter fun v => aget deg v 0 == d, [], 0⟩
+
+/-- `kcore_decomposition`: the dict `core_number` in insertion order -/
+def kcoreRun (R : KOracle) (G : Graph) : List (Nat × Nat) :=
+  if G.nodes.isEmpty then [] else
+  let st0 := kInit G
+  ((List.range st0.buckets.length).foldl (fun st k => kLevel R G.sadj k (G.nodes.length + 1) st) st0).core
+
+def kcoreMirror (G : Graph) : List (Nat × Nat) := kcoreRun headOracle G
 
 /-- `kcore(k)` -/
 def kcoreSetMirror (G : Graph) (k : Nat) : List Nat :=
@@ -441,10 +459,20 @@ def louvain {α} (O : Ops α) (G : Graph) (γ : α) (fuel : Nat) : Option (LvOut
 
 /-! ## Spec: partitions and the modularity formula -/
 
-/-- every community non-empty, duplicate-free and inside the node set; every node in exactly one -/
+/-- `P` is a partition of the node set: communities non-empty, duplicate-free, inside the node
+set, pairwise disjoint, and together they cover every node -/
+structure IsPartition (nodes : List Nat) (P : List (List Nat)) : Prop where
+  nonempty : ∀ c ∈ P, c ≠ []
+  nodup    : ∀ c ∈ P, c.Nodup
+  sub      : ∀ c ∈ P, ∀ v ∈ c, v ∈ nodes
+  cover    : ∀ v ∈ nodes, ∃ c ∈ P, v ∈ c
+  disjoint : P.Pairwise (fun a b => ∀ v ∈ a, v ∉ b)
+
+/-- Boolean checker for `IsPartition` (evaluated on the implementation's communities) -/
 def isPartition (nodes : List Nat) (P : List (List Nat)) : Bool :=
   P.all (fun c => !c.isEmpty && decide c.Nodup && c.all nodes.contains) &&
-  nodes.all (fun v => (P.filter (·.contains v)).length == 1)
+  nodes.all (fun v => P.any (·.contains v)) &&
+  decide (P.Pairwise (fun a b => ∀ v ∈ a, v ∉ b))
 
 /-- undirected simple degree in the symmetric closure -/
 def degDef (G : Graph) (v : Nat) : Nat := degIn G G.nodes v
